@@ -118,37 +118,67 @@ Fixpoint container_n (g : graph) (c : term) (k : nat) : option term :=
 Definition get_container (g : graph) (head : term) (i : Z) : option term :=
   container_n g head (Z.to_nat i).
 
+(* key normalisation shared by __getitem__ / __setitem__ / __delitem__:
+   if key < 0: key += len(self); if key < 0: raise IndexError.
+   inl = the key to go on with, inr = the call ends with this result *)
+Definition c_norm (g : graph) (head : term) (key : Z) : Z + res :=
+  if (key <? 0)%Z then
+    match c_len g head with
+    | RNat n => let k := (key + Z.of_N n)%Z in
+                if (k <? 0)%Z then inr (RExc IndexError) else inl k
+    | r => inr r                                       (* len(self) raised *)
+    end
+  else inl key.
+
 Definition c_getitem (g : graph) (head : term) (i : Z) : res :=
-  match get_container g head i with
-  | Some c =>
-      if truthy c then
-        match g_value g c FIRST with Some v => RTerm v | None => RExc KeyError end
-      else RExc IndexError
-  | None => RExc IndexError
+  match c_norm g head i with
+  | inr r => r
+  | inl key =>
+      match get_container g head key with
+      | Some c =>
+          (* c is not None and c != RDF.nil and (c, RDF.first, None) in graph *)
+          if negb (N.eqb c NIL) && g_has (Some c, Some FIRST, None) g then
+            match g_value g c FIRST with Some v => RTerm v | None => RExc KeyError end
+          else RExc IndexError
+      | None => RExc IndexError
+      end
   end.
 
+(* __setitem__ still tests "if c:" (pinned by test_owlrdfproxylist), finding F3d *)
 Definition c_setitem (g : graph) (head : term) (i : Z) (v : term) : graph * res :=
-  match get_container g head i with
-  | Some c => if truthy c then (g_set c FIRST v g, RNone) else (g, RExc IndexError)
-  | None => (g, RExc IndexError)
+  match c_norm g head i with
+  | inr r => (g, r)
+  | inl key =>
+      match get_container g head key with
+      | Some c => if truthy c then (g_set c FIRST v g, RNone) else (g, RExc IndexError)
+      | None => (g, RExc IndexError)
+      end
   end.
 
-Fixpoint index_f (fuel : nat) (g : graph) (listname item : term) (idx : N) : res :=
+(* index() with its [seen] set *)
+Fixpoint index_f (fuel : nat) (g : graph) (listname item : term) (idx : N) (seen : list term) : res :=
   match fuel with
   | O => RHang
   | S f =>
       if g_has (Some listname, Some FIRST, Some item) g then RNat idx
       else match g_objects g listname REST with
            | [] => RExc OtherError                    (* raise Exception("Malformed ...") *)
-           | [x] => if N.eqb x NIL then RExc ValueError else index_f f g x item (N.succ idx)
+           | [x] => if N.eqb x NIL then RExc ValueError
+                    else if memb N.eqb x seen then RExc ValueError   (* recursive rdf:rest *)
+                    else index_f f g x item (N.succ idx) (x :: seen)
            | _ :: _ :: _ => RExc AssertionError       (* assert len(newlink) == 1 *)
            end
   end.
-Definition c_index (g : graph) (head item : term) : res := index_f (fuel_of g) g head item 0%N.
+Definition c_index (g : graph) (head item : term) : res :=
+  index_f (fuel_of g) g head item 0%N [head].
 
-Definition c_delitem (g : graph) (head : term) (key : Z) : graph * res :=
+Definition c_delitem (g : graph) (head : term) (key0 : Z) : graph * res :=
+  match c_norm g head key0 with
+  | inr r => (g, r)
+  | inl key =>
   match c_getitem g head key with                      (* self[key] *)
   | RExc e => (g, RExc e)
+  | RHang => (g, RHang)
   | _ =>
       match get_container g head key with
       | None => (g, RExc AssertionError)
@@ -162,6 +192,22 @@ Definition c_delitem (g : graph) (head : term) (key : Z) : graph * res :=
                 | Some prior => (g_remove (Some current, None, None) (g_set prior REST NIL g), RNone)
                 | None => (g, RExc AssertionError)      (* Graph.set asserts the subject *)
                 end
+              else if (key =? 0)%Z then
+                (* move the second cell's content into the head, drop the second cell *)
+                match get_container g head 1 with
+                | None => ([], RExc AssertionError)     (* remove((None, None, None)), then set(.., None) asserts *)
+                | Some nxt =>
+                    let g1 := g_remove (Some nxt, None, None) g in
+                    match g_value g nxt FIRST with
+                    | None => (g_remove (Some current, Some FIRST, None) g1, RExc AssertionError)
+                    | Some fi =>
+                        let g2 := g_set current FIRST fi g1 in
+                        match g_value g nxt REST with
+                        | None => (g_remove (Some current, Some REST, None) g2, RExc AssertionError)
+                        | Some re => (g_set current REST re g2, RNone)
+                        end
+                    end
+                end
               else
                 match get_container g head (key + 1), get_container g head (key - 1) with
                 | Some next, Some prior =>
@@ -173,6 +219,7 @@ Definition c_delitem (g : graph) (head : term) (key : Z) : graph * res :=
           | r => (g, r)                                 (* len(self) raised (or hangs) *)
           end
       end
+  end
   end.
 
 (* _end: None = out of fuel *)
@@ -215,7 +262,8 @@ Definition c_iadd (s : st) (head : term) (items : list term) : st * res :=
       if N.eqb e NIL then (s, RExc ValueError) else
       let '(g1, e1, f1) :=
         fold_left iadd_step items (g_remove (Some e, Some REST, None) (gr s), e, fresh s) in
-      ({| gr := g_add (e1, REST, NIL) g1; fresh := f1 |}, RNone)
+      ({| gr := if g_has (Some e1, Some FIRST, None) g1 then g_add (e1, REST, NIL) g1 else g1;
+          fresh := f1 |}, RNone)
   end.
 
 (* clear: every turn with a rest link removes a triple, so length g + 1 turns
@@ -420,18 +468,11 @@ Definition spec_ok (c : case) (obs : list snap) : bool :=
 Definition wfb (c : case) : bool := forallb (fun t => negb (is_fr t)) (c_noise c).
 
 (* ---------------------------------------------------------------- known findings *)
-(* trigger regions, stated on the Python list the history produces:
-   1 (F3b) del c[0] on a list of length >= 2
-   2 (F3d) c[i], c[i] = v, del c[i] with i = len(c)
-   3 (F3e) a negative index
-   4 (F3g) c += [] on an empty collection *)
-Definition kf_idx (n : nat) (i : Z) : N :=
-  if (i <? 0)%Z then 3%N else if (i =? Z.of_nat n)%Z then 2%N else 0%N.
+(* the one remaining trigger region, stated on the Python list the history produces:
+   2 (F3d) c[i] = v with i = len(c) *)
 Definition kf_op (xs : list term) (o : op) : N :=
   match o with
-  | OGet i | OSet i _ => kf_idx (length xs) i
-  | ODel i => if (i =? 0)%Z && (2 <=? length xs)%nat then 1%N else kf_idx (length xs) i
-  | OIadd [] => match xs with [] => 4%N | _ => 0%N end
+  | OSet i _ => if (i =? Z.of_nat (length xs))%Z then 2%N else 0%N
   | _ => 0%N
   end.
 Fixpoint kf_run (xs : list term) (ops : list op) : N :=
@@ -472,15 +513,10 @@ Fixpoint cyclic_f (stop_falsy : bool) (fuel : nat) (g : graph) (c : term) (seen 
 (* the chain Graph.items walks (it stops at a falsy node) is cyclic *)
 Definition cyclic_iter (g : graph) (head : term) : bool :=
   match cyclic_f true (fuel_of g) g head [head] with Some b => b | None => false end.
-(* the rest links loop (index() does not stop at falsy nodes); out of fuel
-   counts as looping, so that the trigger below errs on the safe side *)
-Definition cyclic_rest (g : graph) (head : term) : bool :=
-  match cyclic_f false (fuel_of g) g head [head] with Some b => b | None => true end.
-
 Definition is_exc (r : res) : bool := match r with RExc _ => true | _ => false end.
 Definition is_hang (r : res) : bool := match r with RHang => true | _ => false end.
 
-(* no read hangs; on a chain that is cyclic, list(c) and len(c) raise *)
+(* no read hangs (index() included); on a chain that is cyclic, list(c) and len(c) raise *)
 Definition r_ok (g : graph) (o : op) (r : res) : bool :=
   negb (is_hang r)
   && match o with
@@ -496,9 +532,3 @@ Fixpoint r_run (g : graph) (ops : list op) (obs : list res) : bool :=
 Definition r_spec (c : rcase) (obs : list res) : bool := r_run (r_graph c) (r_ops c) obs.
 
 Definition r_wfb (c : rcase) : bool := forallb is_read (r_ops c).
-
-(* trigger 1 (F3c): index() on a chain whose rest links loop *)
-Definition r_kf (c : rcase) : N :=
-  if cyclic_rest (r_graph c) HEAD
-     && existsb (fun o => match o with OIndex _ => true | _ => false end) (r_ops c)
-  then 1%N else 0%N.
